@@ -102,7 +102,38 @@ def pool_for(env, rec, limit=12):
                 seen.add(k)
                 out.append((hh, w2.obj))
             if len(out) >= limit:
-                return out
+                return out + order_histories(env, rec, seen)
+    return out + order_histories(env, rec, seen)
+
+
+def order_histories(env, rec, seen):
+    """states whose __dict__ insertion order differs from declaration order: an invalidating attribute
+    without default assigned AFTER construction, then its dependant re-assigned (a deepcopy that
+    replays the attributes in storage order must not let the invalidator reset the dependant)"""
+    inv = rec.get("opts", {}).get("invalidated_by", {})
+    if not inv:
+        return []
+    tab = {n: (K, a) for n, K, a in S.attr_table(rec)}
+    out = []
+    for dep, srcs in inv.items():
+        for src in srcs:
+            if src not in tab or dep not in tab:
+                continue
+            vs, vd = tab[src][0]["conf"][-1], tab[dep][0]["conf"][-1]
+            for first in (({"op": "new", "kw": {}, "shape": "new:defaults"},), ({"op": "new", "kw": {src: tab[src][0]["conf"][0]}, "shape": "new:conf"},)):
+                for mid in ((), ({"op": "del", "attr": src, "shape": "del"},)):
+                    hh = first + mid + ({"op": "set", "attr": src, "value": vs, "shape": "assign:conf"},
+                                        {"op": "set", "attr": dep, "value": vd, "shape": "assign:conf"})
+                    try:
+                        w = S.build(env, hh)
+                    except Exception:
+                        continue
+                    if not w.objs:
+                        continue
+                    k = (snap.canon(w.objs), tuple(vars(w.obj)))
+                    if k not in seen:
+                        seen.add(k)
+                        out.append((hh, w.obj))
     return out
 
 
@@ -253,30 +284,44 @@ FIELDS = {
     "fn": ("Any", "None", len, [max, None]),
     "kls": ("Any", "None", int, [str, None]),
     "mod": ("Any", "None", sys, [itertools, None]),
-    "hid": ("int", "Attr(default=0, compare=False)", 0, [9]),
+    "hid": ("int", "Attr(default=0, compare=False, repr=False)", 0, [9]),
     "opt": ("Optional[int]", "None", None, [3]),
     "nd": ("int", None, 5, [6, "<omit>"]),  # no default: omitting the keyword leaves it missing
 }
 
 
-def mixed_class(order):
+def mixed_class(order, variant="base"):
     ns = {"__name__": "verif_c10"}
     exec(compile("from typing import Any, List, Optional\nfrom spec_classes import spec_class, Attr\n", "<c10>", "exec", dont_inherit=True), ns)
     lines = ["@spec_class", "class Mixed:"]
     for n in order:
         ann, dflt, _, _ = FIELDS[n]
         lines.append(f"    {n}: {ann} = {dflt}" if dflt is not None else f"    {n}: {ann}")
+    # spec subclasses that make the library rebuild the inherited attribute specifications: the options the
+    # owner declared (compare=False, repr=False) must survive a re-default / a change of copy policy
+    if variant == "sub_redefault":
+        lines += ["@spec_class", "class Sub(Mixed):"] + [f"    {n} = {FIELDS[n][1] if not FIELDS[n][1].startswith('Attr') else '0'}" for n in order if n in ("hid", "i", "s")]
+    elif variant == "sub_dnc":
+        lines += ["@spec_class(do_not_copy=True)", "class Sub(Mixed):", "    pass"]
     exec(compile("\n".join(lines) + "\n", "<c10-mixed>", "exec", dont_inherit=True), ns)
-    return ns["Mixed"]
+    return ns["Sub" if variant != "base" else "Mixed"]
 
 
 def single_diff_worker(task):
     C = Counter()
-    for order in task["orders"]:
-        cls = mixed_class(order)
+    for order, variant in itertools.product(task["orders"], ("base", "sub_redefault", "sub_dnc")):
+        if variant == "sub_redefault" and not any(n in ("hid", "i", "s") for n in order):
+            continue
+        cls = mixed_class(order, variant)
         C.inc("states")
         base_kw = {n: copy.copy(FIELDS[n][2]) if isinstance(FIELDS[n][2], list) else FIELDS[n][2] for n in order}
         x = cls(**base_kw)
+        C.inc("evaluations")
+        rn = repr_names(x.__repr__(indent=False))
+        if rn != [n for n in order if n != "hid"]:
+            C.viol(violation(PROP, {"part": "single_difference", "kind": "repr_attribute_list", "variant": variant},
+                             {"names": rn, "expected": [n for n in order if n != "hid"]},
+                             {"part": "single_difference", "order": list(order), "attr": order[0], "alt": repr(FIELDS[order[0]][3][0]), "variant": variant}))
         for pos, n in enumerate(order):
             for alt in FIELDS[n][3]:
                 kw = dict(base_kw)
@@ -289,19 +334,19 @@ def single_diff_worker(task):
                     got1, got2 = bool(x == y), bool(y == x)
                     ne = bool(x != y)
                 except Exception as e:
-                    C.viol(violation(PROP, {"part": "single_difference", "kind": "eq_raised", "attr": n, "error": type(e).__name__},
-                                     {"error": repr(e)[:200]}, {"part": "single_difference", "order": list(order), "attr": n, "alt": repr(alt)}))
+                    C.viol(violation(PROP, {"part": "single_difference", "kind": "eq_raised", "attr": n, "error": type(e).__name__, "variant": variant},
+                                     {"error": repr(e)[:200]}, {"part": "single_difference", "order": list(order), "attr": n, "alt": repr(alt), "variant": variant}))
                     continue
                 before = [FIELDS[m][0] for m in order[:pos]]
                 after_method = any(m in ("cb",) for m in order[:pos])
                 if got1 != exp or got2 != exp or ne == got1:
                     C.viol(violation(PROP, {"part": "single_difference", "kind": "differing_attribute_ignored" if exp is False else "compare_false_attribute_compared",
-                                            "attr": n, "after_bound_method_attr": after_method, "alt": "missing" if alt == "<omit>" else type(alt).__name__},
+                                            "attr": n, "after_bound_method_attr": after_method, "alt": "missing" if alt == "<omit>" else type(alt).__name__, "variant": variant},
                                      {"order": list(order), "position": pos, "x==y": got1, "y==x": got2, "x!=y": ne, "x": repr(x)[:200], "y": repr(y)[:200]},
-                                     {"part": "single_difference", "order": list(order), "attr": n, "alt": repr(alt)}))
+                                     {"part": "single_difference", "order": list(order), "attr": n, "alt": repr(alt), "variant": variant}))
                 else:
                     C.inc("traces_validated_against_impl")
-                    C.nontrivial((tuple(order), n, repr(alt)))
+                    C.nontrivial((tuple(order), n, repr(alt), variant))
     C.sample({"part": "single_difference", "order": list(task["orders"][0])})
     return C.rec
 
@@ -391,7 +436,8 @@ def run_case(case):
         return [v for v in sub["violations"] if json_key(v["case"]["histories"]) == want]
     if case["part"] == "single_difference":
         sub = single_diff_worker({"orders": [tuple(case["order"])]})
-        return [v for v in sub["violations"] if v["case"]["attr"] == case["attr"] and v["case"]["alt"] == case["alt"]]
+        return [v for v in sub["violations"] if v["case"]["attr"] == case["attr"] and v["case"]["alt"] == case["alt"]
+                and v["case"].get("variant", "base") == case.get("variant", "base")]
     sub = selfref_worker({})
     return [v for v in sub["violations"] if v["case"]["structure"] == case["structure"] and v["case"]["kwargs"] == case["kwargs"]]
 
@@ -407,6 +453,11 @@ def json_key(x):
 def main(run):
     quick = run.tier == "quick"
     recs = G.quick_family() if quick else G.full_family()
+    recs = list(recs) + [
+        # dependant declared BEFORE the attribute that invalidates it
+        G.composite("CompInvRev", [("str", "lit"), ("int", "lit"), ("nums", "mut")], invalidated_by={"s": ["v"]}),
+        G.composite("CompInvRevNoDefault", [("str", "lit"), ("float", "lit"), ("int", "none")], invalidated_by={"s": ["v"], "f": ["s"]}),
+    ]
     tasks = [{"part": "pool", "rec": r, "limit": 8 if quick else 12} for r in recs if r.get("opts", {}).get("do_not_copy") is not True]
     names = ["i", "cb", "s", "hid", "fn"] if quick else ["i", "cb", "s", "hid", "fn", "xs"]
     orders = list(itertools.permutations(names))
